@@ -550,7 +550,13 @@ impl Tcp {
             },
             Segment::Fin(seq) => match self.sockets.get_mut(&SocketPair::new(dst, src)) {
                 Some(sock) => sock.buffer(seq, SequencedSegment::Fin)?,
-                None => return Err(Protocol::Tcp(Segment::Rst)),
+                // A FIN for a stream that is already gone carries no data
+                // that could be lost: the receiver closed (dropped) its end
+                // after consuming everything and the two FINs crossed on the
+                // wire. Answering with a RST would reset the sender's stream
+                // and throw away what is still in flight towards it, turning
+                // a graceful close into an abortive one.
+                None => {}
             },
             Segment::Rst => {
                 if let Some(sock) = self.sockets.swap_remove(&SocketPair::new(dst, src)) {
